@@ -19,16 +19,21 @@ use tokio_tungstenite::tungstenite;
 type Ws = tungstenite::WebSocket<TcpStream>;
 
 fn ws_connect(addr: std::net::SocketAddr, path: &str) -> Ws {
-    let s = TcpStream::connect(addr).unwrap();
+    try_ws_connect(addr, path).expect("ws handshake")
+}
+/// never blocks for ever: a server whose accept path is stuck yields None after 5 s
+fn try_ws_connect(addr: std::net::SocketAddr, path: &str) -> Option<Ws> {
+    let s = TcpStream::connect_timeout(&addr, Duration::from_secs(5)).ok()?;
     s.set_nodelay(true).ok();
+    s.set_read_timeout(Some(Duration::from_secs(5))).ok();
     let cfg = tungstenite::protocol::WebSocketConfig { max_frame_size: None, max_message_size: None, ..Default::default() };
-    let (ws, _) = tungstenite::client::client_with_config(format!("ws://{addr}{path}"), s, Some(cfg)).expect("ws handshake");
-    ws
+    let (ws, _) = tungstenite::client::client_with_config(format!("ws://{addr}{path}"), s, Some(cfg)).ok()?;
+    Some(ws)
 }
 fn ws_send(ws: &mut Ws, m: &Message) {
     let mut m = m.clone();
     m.header.query_format = 1; // JSON pointer
-    ws.send(tungstenite::Message::Binary(m.to_vec().into())).unwrap();
+    let _ = ws.send(tungstenite::Message::Binary(m.to_vec().into())); // a failed send shows as silence later
 }
 /// next binary message within `t`, as (id, ec, notify flag, query, total length)
 fn ws_next(ws: &mut Ws, t: Duration) -> Option<(u64, u32, u8, String, usize)> {
@@ -139,9 +144,13 @@ pub fn c16(a: &Args) -> i32 {
             }
         };
         let l3 = log.clone();
-        let router = Router::new()
-            .with_middleware(|req: &Message, next: repe::server::Next<'_>| next.run(req))
-            .with_json_blocking("/work", work)
+        // on odd schedules the blocking route is registered BEFORE the middleware (the middleware rebuild must keep it off-reader)
+        let router = if si % 2 == 0 {
+            Router::new().with_middleware(|req: &Message, next: repe::server::Next<'_>| next.run(req)).with_json_blocking("/work", work)
+        } else {
+            Router::new().with_json_blocking("/work", work).with_middleware(|req: &Message, next: repe::server::Next<'_>| next.run(req))
+        };
+        let router = router
             .with_json("/inline", |v| Ok(json!({"inline": v})))
             .with_json("/inlinebig", |_v| Ok(json!({"pad": "z".repeat(6 << 20)})))
             // used from a SECOND connection: not counted by the gauge, returns at once
@@ -207,11 +216,16 @@ pub fn c16(a: &Args) -> i32 {
         }
         // 2b. the cap is per connection: with this connection saturated, a second connection's off-reader request runs
         if cap > 0 {
-            let mut ws2 = ws_connect(addr, "/ws");
-            ws_send(&mut ws2, &Message::builder().id(9_000_000 + si as u64).query_str("/work2").body_json(&json!({"x": 1})).unwrap().build());
-            let r = ws_next(&mut ws2, Duration::from_secs(5));
-            log.push(json!({"ev": "other_conn", "ec": r.map(|x| x.1 as i64).unwrap_or(-1)}));
-            let _ = ws2.close(None);
+            match try_ws_connect(addr, "/ws") {
+                Some(mut ws2) => {
+                    ws_send(&mut ws2, &Message::builder().id(9_000_000 + si as u64).query_str("/work2").body_json(&json!({"x": 1})).unwrap().build());
+                    let r = ws_next(&mut ws2, Duration::from_secs(5));
+                    log.push(json!({"ev": "other_conn", "ec": r.map(|x| x.1 as i64).unwrap_or(-1)}));
+                    let _ = ws2.close(None);
+                }
+                // a reader parked inside a handler can keep the accept task from running at all
+                None => log.push(json!({"ev": "other_conn", "ec": -2})),
+            }
         }
         // 3. the reader is not blocked: an inline request is answered while the handlers are parked
         next_id.set(next_id.get() + 1);
@@ -290,12 +304,17 @@ pub fn c17(a: &Args) -> i32 {
             let total = v["frame"].as_u64().unwrap_or(100) as usize;
             pad_json(total, qlen).ok_or((ErrorCode::ApplicationErrorBase, "too small".to_string()))
         };
-        let (b1, b2) = (big.clone(), big.clone());
+        let (b1, b2, b4) = (big.clone(), big.clone(), big.clone());
         let router = Router::new()
             .with_json("/big", move |v| b1(v, 4))
             .with_json_blocking("/bigB", move |v| b2(v, 5))
             .with_json("/echo", move |v| { sv.fetch_add(1, Ordering::SeqCst); Ok(v) })
             .with_json("/seen", move |_v| Ok(json!(sv2.load(Ordering::SeqCst))))
+            .with_json_ctx("/push_then_big", move |ctx, v| {
+                // a small pushed notify immediately followed by this request's (possibly oversized) response: a burst
+                if let Some(p) = ctx.peer() { let _ = p.send_notify("/n", NotifyBody::Raw(vec![5u8; 60], BodyFormat::RawBinary)); }
+                b4(v, 14)
+            })
             .with_json_ctx("/push", |ctx, v| {
                 let total = v["frame"].as_u64().unwrap_or(100) as usize;
                 if let Some(p) = ctx.peer() {
@@ -406,6 +425,37 @@ pub fn c17(a: &Args) -> i32 {
                 n_cases += 1;
                 out.push(&json!({"ev": "guard", "path": path, "kind": "client", "limit": limit, "size": size, "local_too_large": local_too_large, "ok": r.is_ok(),
                                  "server_saw": seen, "alive": alive}));
+            }
+        }
+        // bursts: several messages are in the outbound queue when the writer wakes, the oversized one not first
+        if limit > 0 {
+            for rep in 0..12u64 {
+                let rep0 = reported.load(Ordering::SeqCst);
+                let mut observed: Vec<i64> = vec![];
+                id += 3;
+                if rep % 2 == 0 {
+                    ws_send(&mut ws, &Message::builder().id(id).query_str("/push_then_big").body_json(&json!({"frame": limit + 500})).unwrap().build());
+                } else {
+                    // three pipelined inline requests: small, oversized, small
+                    ws_send(&mut ws, &Message::builder().id(id - 2).query_str("/big").body_json(&json!({"frame": 90})).unwrap().build());
+                    ws_send(&mut ws, &Message::builder().id(id - 1).query_str("/big").body_json(&json!({"frame": limit + 300})).unwrap().build());
+                    ws_send(&mut ws, &Message::builder().id(id).query_str("/big").body_json(&json!({"frame": 95})).unwrap().build());
+                }
+                let want = if rep % 2 == 0 { 2 } else { 3 };
+                let t0 = Instant::now();
+                while observed.len() < want && t0.elapsed() < Duration::from_secs(3) {
+                    if let Some((_, _, _, _, len)) = ws_next(&mut ws, Duration::from_millis(300)) { observed.push(len as i64); }
+                }
+                id += 1;
+                ws_send(&mut ws, &Message::builder().id(id).query_str("/big").body_json(&json!({"frame": 80})).unwrap().build());
+                let mut alive = false;
+                while let Some((rid, ec, notify, _, len)) = ws_next(&mut ws, Duration::from_secs(5)) {
+                    if rid == id && notify == 0 { alive = ec == 0; break; }
+                    observed.push(len as i64);
+                }
+                n_cases += 1;
+                out.push(&json!({"ev": "guard", "path": if rep % 2 == 0 { "notify_then_response" } else { "pipelined_responses" }, "kind": "burst", "limit": limit, "size": limit + 300,
+                                 "observed": observed, "expected_messages": want, "reported": reported.load(Ordering::SeqCst) > rep0, "alive": alive}));
             }
         }
         // long method paths: whatever the server answers (method-not-found echoing the path, or its
